@@ -268,6 +268,30 @@ def bands(ctx, si, payload):
     ctx.distinct.add_rows(np.array([b[0] for b in payload["bands"]], float), np.array([b[1] for b in payload["bands"]], float))
 
 
+def history(ctx, si, payload):
+    """One EASRadio object reused across calls while its configuration's band / batch size change."""
+    from nuspacesim.simulation.eas_radio.radio import EASRadio
+
+    import contextlib
+    import io
+
+    rng = ctx.subrng("c20-hist", si)
+    cfg, beta, alt, l, theta, L, se = upstream(rng, 400, 525.0)
+    obj = EASRadio(cfg)
+    steps = [((30.0, 300.0), 400), ((300.0, 1000.0), 400), ((30.0, 300.0), 400), ((50.0, 200.0), 150), ((30.0, 300.0), 400), ((330.0, 600.0), 400), ((30.0, 300.0), 17)]
+    for k, (band, n) in enumerate(steps):
+        cfg.detector.radio.low_frequency, cfg.detector.radio.high_frequency = band
+        args = tuple(x[:n] for x in (beta, alt, l, theta, L, se))
+        with rngctl.stub(rngctl.constant(0.4)), contextlib.redirect_stdout(io.StringIO()):
+            got = np.asarray(obj(*args))
+            ref = np.asarray(EASRadio(cfg)(*args))
+        ctx.count("history", n)
+        ctx.distinct.add(("history", k, band, n))
+        if got.shape != ref.shape or got.tobytes() != ref.tobytes():
+            ctx.violation("history", f"call #{k + 1} on one EASRadio object (band {band}, {n} events, after calls with other bands / sizes) differs from a fresh object: shape {got.shape} vs {ref.shape}", {"step": k, "band": list(band), "n": n})
+            break
+
+
 def big(ctx, si, payload):
     """One batch larger than any internal block size: order, range and finiteness."""
     rng = ctx.subrng("c20-big", si)
@@ -301,7 +325,9 @@ def big(ctx, si, payload):
 
 
 def entry(ctx, si, payload):
-    if payload["kind"] == "big":
+    if payload["kind"] == "history":
+        history(ctx, si, payload)
+    elif payload["kind"] == "big":
         big(ctx, si, payload)
     elif payload["kind"] == "rel":
         relations(ctx, si, payload)
@@ -319,9 +345,10 @@ def run(ctx):
     for d in dets:
         P.append({"kind": "rel", "dets": [d], "variants": variants if T else variants[:: 2 if d != 525.0 else 1], "n": 300 if not T else 2500})
     P.append({"kind": "big", "n": 20000 if not T else 70001})
+    P.append({"kind": "history"})
     core.run_shards(ctx, "nssmon.checks.c20", "entry", P, workers=16, timeout=ctx.pick(900, 5000))
     ctx.exhaustive_subspaces.append("all 13 695 frequency bands 10a <= lo < hi <= 1650 MHz")
-    for m in ("energy", "antennas", "order", "order-big-batch", "finite", "range", "range-inside", "bands", "bands-snr", "absolute"):
+    for m in ("energy", "antennas", "order", "order-big-batch", "finite", "range", "range-inside", "bands", "bands-snr", "absolute", "history"):
         ctx.require(m)
     if ctx.mon.get("bands", 0) != len(allb):
         ctx.inconclusive_because(f"only {ctx.mon.get('bands', 0)} of {len(allb)} bands were enumerated")
